@@ -29,4 +29,6 @@ try:
                 pass
 finally:
     subprocess.run(["git", "-C", "/repo", "checkout", "--", "."])
+    # evidence written while the patch was applied describes the patched tree: put the committed files back
+    subprocess.run(["git", "-C", V, "checkout", "--", "evidence"])
     print("restored /repo:", subprocess.run(["git", "-C", "/repo", "status", "--porcelain", "--untracked-files=no"], capture_output=True, text=True).stdout.strip() or "clean")
